@@ -250,7 +250,17 @@ def gen_pools(rng, th, ob, nx=4, nq=4):
         xs.append(q_small)
         xs.append(rng.choice([0.5, 0.7, 0.9]))
     if rng.random() < 0.3:
-        q2s.append(rng.choice([10, 4, 90]))  # int spelling
+        # int spelling, preferably of a value that is also in the pool as a float
+        same = [int(q) for q in q2s if isinstance(q, float) and q == int(q)]
+        q2s.append(rng.choice(same) if same and rng.random() < 0.7 else rng.choice([10, 4, 90]))
+    if rng.random() < 0.12:
+        # neighbours in the last bit
+        v = rng.choice(q2s)
+        if isinstance(v, float):
+            q2s.append(math.nextafter(v, math.inf))
+        w = rng.choice(xs)
+        if w < 1.0:
+            xs.append(math.nextafter(w, 0.0))
     if rng.random() < 0.15:
         xs.append(1.0)
     # Nachtmann coincidence: xi(x0, Q²) of another pool member
